@@ -48,6 +48,12 @@ fn producers() -> Vec<Producer> {
         Producer { name: "alias", script: "alias al=\"$x\"; alias al", reader: "alias", applies: any },
         Producer { name: "trap -p", script: "trap -- \"$x\" USR1; trap -p USR1", reader: "trap", applies: nonempty },
         Producer { name: "set -x trace", script: "PS4='+ '; { set -x; : \"$x\"; { set +x; } 2>/dev/null; } 2>&1", reader: "xtrace", applies: any },
+        // the other command forms the trace prints: assignments, array literals, keyed literals
+        Producer { name: "set -x trace assignment", script: "PS4='+ '; { set -x; x2=\"$x\"; { set +x; } 2>/dev/null; } 2>&1", reader: "xtrace-x2", applies: any },
+        Producer { name: "set -x trace array literal", script: "PS4='+ '; { set -x; a=(\"$x\" \"$x\"); { set +x; } 2>/dev/null; } 2>&1", reader: "xtrace-array", applies: any },
+        Producer { name: "set -x trace keyed literal value", script: "PS4='+ '; declare -A mv; { set -x; mv=([k]=\"$x\"); { set +x; } 2>/dev/null; } 2>&1", reader: "xtrace-assoc-value", applies: any },
+        Producer { name: "set -x trace keyed literal key", script: "PS4='+ '; declare -A mk; { set -x; mk=([\"$x\"]=1); { set +x; } 2>/dev/null; } 2>&1", reader: "xtrace-assoc-key", applies: nonempty },
+        Producer { name: "set -x trace append keyed", script: "PS4='+ '; declare -A mk; { set -x; mk+=([\"$x\"]=1); { set +x; } 2>/dev/null; } 2>&1", reader: "xtrace-assoc-key", applies: nonempty },
     ]
 }
 
@@ -64,6 +70,10 @@ fn reader_scripts(reader: &str) -> Vec<(&'static str, &'static str)> {
         "alias" => vec![("stmt", "shopt -s expand_aliases; eval \"$T\"; vargs \"${BASH_ALIASES[al]}\"")],
         "trap" => vec![("stmt", "trap -- \"$x\" USR1; b1=$(trap -p USR1); trap - USR1; eval \"$T\"; b2=$(trap -p USR1); if [[ \"$b1\" == \"$b2\" ]]; then vargs same; else vargs \"$b1\" \"$b2\"; fi")],
         "xtrace" => vec![("arg", "eval \"set -- $T\"; vargs \"$@\"")],
+        "xtrace-x2" => vec![("stmt", "eval \"$T\"; vargs \"$x2\"")],
+        "xtrace-array" => vec![("stmt", "eval \"$T\"; vargs \"${a[@]}\"")],
+        "xtrace-assoc-value" => vec![("stmt", "declare -A mv; eval \"$T\"; vargs \"${mv[k]}\" \"${#mv[@]}\"")],
+        "xtrace-assoc-key" => vec![("stmt", "declare -A mk; eval \"$T\"; vargs \"${!mk[@]}\" \"${#mk[@]}\"")],
         _ => vec![],
     }
 }
@@ -79,9 +89,9 @@ fn expected(reader: &str, v: &str) -> String {
         s
     };
     match reader {
-        "args+assign" | "stmt-x" | "set-extract" | "alias" | "xtrace" => rec(&[v]),
-        "array" => rec(&[v, v]),
-        "assoc-value" | "assoc-key" => rec(&[v, "1"]),
+        "args+assign" | "stmt-x" | "set-extract" | "alias" | "xtrace" | "xtrace-x2" => rec(&[v]),
+        "array" | "xtrace-array" => rec(&[v, v]),
+        "assoc-value" | "assoc-key" | "xtrace-assoc-value" | "xtrace-assoc-key" => rec(&[v, "1"]),
         "export-extract" => format!("{}zzzx={v}\n", rec(&[v])),
         "trap" => rec(&["same"]),
         _ => String::new(),
@@ -106,6 +116,12 @@ fn extract(reader: &str, text: &str) -> Option<String> {
             // "+ : <quoted>\n+ set +x\n"
             // the producer runs in a subshell, so PS4's first character may be repeated
             let t = text.trim_start_matches('+').strip_prefix(" : ")?;
+            let end = t.rfind("\n+").filter(|i| t[*i..].trim_start_matches(['\n', '+']).starts_with(" set +x")).unwrap_or(t.trim_end_matches('\n').len());
+            Some(t[..end].to_string())
+        }
+        r if r.starts_with("xtrace-") => {
+            // "+ <statement>\n+ set +x\n" (PS4's first character may be repeated)
+            let t = text.trim_start_matches('+').strip_prefix(' ')?;
             let end = t.rfind("\n+").filter(|i| t[*i..].trim_start_matches(['\n', '+']).starts_with(" set +x")).unwrap_or(t.trim_end_matches('\n').len());
             Some(t[..end].to_string())
         }
@@ -206,6 +222,11 @@ pub fn run(tier: Tier, _replay: Option<Value>) -> ! {
         for (who, got) in [("brush", &got_brush), ("bash", &got_bash)] {
             // `${BASH_ALIASES[..]}` is how the bash reader looks inside; brush may not offer it: use the fixed point there
             if who == "brush" && p.reader == "alias" {
+                continue;
+            }
+            // bash itself loses one of two adjacent \001 bytes (its internal escape character) in a keyed
+            // literal's subscript, whatever the quoting: not a reader to compare with for those keys
+            if who == "bash" && p.reader == "xtrace-assoc-key" && v.contains('\u{1}') {
                 continue;
             }
             if *got != want {
